@@ -65,12 +65,13 @@ T_SEQOF = CON(('SZ', 1, 2), ('SEQOF', INT))
 T_SETOF = CON(('SZ', 0, 2), ('SETOF', OCTS))
 T_SEQ = ('SEQ', (('a', T_INT, 'R', None), ('b', T_OCTS, 'O', None), ('c', BOOL, 'D', False)))
 T_SET = ('SET', (('x', INT, 'R', None), ('y', U.E(1, BOOL), 'O', None), ('z', T_UTF8, 'O', None)))
+T_SET2 = ('SET', (('id', T_INT, 'R', None), ('name', T_OCTS, 'R', None), ('note', U.I(5, BOOL), 'O', None)))
 T_WC = CON(('WC', ('b', 'A')), ('SEQ', (('a', INT, 'R', None), ('b', OCTS, 'O', None))))
 T_WCP = CON(('WC', ('b', 'P')), ('SEQ', (('a', INT, 'R', None), ('b', OCTS, 'O', None))))
 T_CH = ('CHOICE', (('i', T_SV), ('s', U.I(3, T_OCTS))))
 T_NEST = ('SEQ', (('k', INT, 'R', None), ('inner', CON(('SZ', 2, 2), ('SEQOF', ('SEQ', (('a', T_INT, 'R', None),)))), 'R', None)))
 TYPES = [('int-range', T_INT), ('int-sv', T_SV), ('octs-size', T_OCTS), ('utf8-size-alpha', T_UTF8),
-         ('seqof-size', T_SEQOF), ('setof-size', T_SETOF), ('seq', T_SEQ), ('set', T_SET), ('wc-absent', T_WC),
+         ('seqof-size', T_SEQOF), ('setof-size', T_SETOF), ('seq', T_SEQ), ('set', T_SET), ('set2', T_SET2), ('wc-absent', T_WC),
          ('wc-present', T_WCP), ('choice', T_CH), ('nested', T_NEST)]
 
 
@@ -157,6 +158,13 @@ def neighbours(name, T):
         out.append(('duplicated-member', e[:1] + M.length_octets(len(content)) + content))
         content2 = dup + dup
         out.append(('only-duplicates', e[:1] + M.length_octets(len(content2)) + content2))
+        for j, kj in enumerate(node.children):
+            # member j duplicated in place of member j+1 (a mandatory member masked by a duplicate)
+            if j + 1 < len(node.children):
+                dj = e[kj.start:kj.end]
+                rest = b''.join(e[c.start:c.end] for t, c in enumerate(node.children) if t not in (j, j + 1))
+                content3 = dj + dj + rest
+                out.append(('duplicate-replaces-%d' % (j + 1), e[:1] + M.length_octets(len(content3)) + content3))
     if base[0] in ('SEQOF', 'SETOF'):
         wrong = (base[0], BOOL) if M.base_of(base[1])[0] != 'BOOL' else (base[0], INT)
         out.append(('wrong-member-type', M.der(wrong, [True, False])))
